@@ -899,7 +899,11 @@ func ruleFM4(c *Ctx) *rule {
 	if docWrite != nil {
 		key = "ast.Task.String docstring-write guards"
 		bad := ""
-		for _, g := range c.info(ts).necessaryGuards(docWrite.Block()) {
+		tfi := c.info(ts)
+		for _, g := range tfi.necessaryGuards(docWrite.Block()) {
+			if il := tfi.innermostLoop(g.e.from); il != nil && g.e.from == il.header && !il.body[g.e.to()] {
+				continue // the exhaustion edge of a loop that runs before the write is not a condition on the write
+			}
 			sl := c.newSlicer()
 			sl.depth = 0
 			res := sl.run(g.cond)
